@@ -79,4 +79,47 @@ PROPS["C06"] = {
     "explanation": "format_agp proved per written line; tiling lemma; bounded re-reading of written AGP files",
 }
 
+FASTA_TRUSTED = LIST_TRUSTED + [
+    "ghost model of the FASTA file: a record with faidx layout (offset, residues per line, bytes per line, length) has residue g at byte offset + (g // rpl) * mll + g % rpl; seek/read/tell of a binary file move and read that cursor (external contracts ext.FastaFH.*)",
+    "io.BytesIO as (kind, first, n, cursor) of one contiguous run; write() is checked for contiguity (external contracts ext.BytesIO.*)",
+    "abstract bytes values (kind, first residue, length): file residues, their reverse complement, filler runs, line terminators",
+    "a generator is modelled as the list of what it yields (its body and its consumers touch disjoint state)",
+    "floor division and modulo by fresh witnesses q, r with a == b*q + r (exact)",
+    "revcomp_bytes_io turns residues [first, first+n) into their reverse complement (TRUSTED model; the table is decided by lemma c14_complement_table)",
+]
+
+PROPS["C03"] = {
+    "level": "other",
+    "technique": "deductive verification of sequence_bytes / fwd_chunks / rev_chunks / get_gap_iter / get_sequence_iter / write_scaffold / write_assembly against contracts over a ghost FASTA layout and output-column model; bounded byte-level comparison incl. the pretext-to-asm CLI",
+    "level_text": "Proved for all layouts, intervals, buffer sizes and line lengths: sequence_bytes reads exactly residues start..end (every read is checked to sit on the next expected residue, inside one line and inside the record); the chunk iterators deliver the row in pieces of 1..buffer_size residues that abut and cover it (last-first and reverse-complemented for minus rows; gaps as filler runs summing to the gap length); write_scaffold consumes every chunk completely and in order, never writes an empty or over-long line, ends with a complete line and writes exactly Scaffold.length residues; write_assembly writes one such record per scaffold in order. Not proved (bounded): the byte-for-byte content equality through real files, record-name uniqueness (inherited from C10), and the end-to-end CLI.",
+    "level_note": "The link from the abstract bytes model to real file bytes (io semantics, bytes.translate, slicing) is trusted; content equality with real files is checked by the bounded tier. pretext_to_asm.write_assembly (same object passed to both writers) is bounded.",
+    "lemmas": ["c03_chunks_cover_the_row"],
+    "bounded": [("bounded.c03", {})],
+    "trusted": FASTA_TRUSTED,
+    "assumptions": ["rows lie within the indexed sequences (precondition of write_scaffold)", "text encoding of the record header is opaque"],
+    "explanation": "streaming core proved over a ghost file model; real bytes and the CLI bounded",
+}
+PROPS["C13"] = {
+    "level": "other",
+    "technique": "allocation-size obligations inside the contracts of the streaming functions (every chunk and every read is at most buffer_size), buffer-size-free postconditions; bounded byte identity over buffer sizes and tracemalloc peaks",
+    "level_text": "Proved: every BytesIO produced by fwd_chunks, rev_chunks and get_gap_iter holds between 1 (0 for the final filler chunk) and buffer_size bytes, each sequence_bytes request spans at most buffer_size residues and each of its reads at most one line, write_scaffold holds one chunk and one piece of at most line_length at a time; the postconditions of all streaming functions do not depend on buffer_size (the delivered residues are start..end for every buffer_size >= 1), which is the independence clause for streaming. Not decidable by contracts and therefore bounded: real peak memory of CPython (tracemalloc run-time contract) and the indexing side (index_fasta_file), compared across buffer sizes.",
+    "level_note": "index_fasta_file's buffer independence is covered by the bounded tier only in this round. Real memory behaviour of the interpreter is outside what a contract on source can state.",
+    "lemmas": ["c03_chunks_cover_the_row"],
+    "bounded": [("bounded.c13", {})],
+    "trusted": FASTA_TRUSTED,
+    "assumptions": ["memory is measured as the size of the bytes objects the functions construct (ghost length), not the allocator's footprint"],
+    "explanation": "size bounds proved in the contracts; peak memory and indexing bounded",
+}
+PROPS["C14"] = {
+    "level": "proof",
+    "technique": "deductive verification of Fragment.reverse, Scaffold.reverse (inlined generator, loop invariant), OverlapResult.to_scaffold, rev_chunks / get_sequence_iter; lemmas: reversal is an involution, complement table decided over all 256 bytes from the literals in the source, streaming law by induction over rows; bounded byte-level cross-check",
+    "level_text": "Proved: Scaffold.reverse returns the rows in inverse order with every fragment's strand negated and name, interval and tags kept, gaps untouched, source scaffold unchanged (for any number of rows); applying it twice gives back the rows (lemma over the contract); the table IUPAC_COMPLEMENT built from the two literals in the source is an involution on all 256 byte values, equals the IUPAC complement and preserves case (decided by the solver), so reverse_complement twice is the identity; streaming a reversed scaffold is the reverse complement of streaming the original for strands +/- (induction over rows over the chunk contracts). For rows of unknown strand the streaming law fails: known finding C14-strand0-reversal.",
+    "level_note": "Trusted: bytes slicing [::-1] reverses and bytes.translate maps bytewise (index algebra of reverse_complement), revcomp_bytes_io model, induction principle. The statement's clause for unknown-strand rows is a recorded known finding, reconfirmed by the bounded tier on every run.",
+    "lemmas": ["c14_reverse_is_involution", "c14_complement_table", "c14_stream_of_reversal_is_revcomp"],
+    "bounded": [("bounded.c14", {})],
+    "trusted": FASTA_TRUSTED + ["seq[::-1].translate(T): reversal then bytewise table lookup", "induction over the rows of a scaffold (meta-step of lemma c14_stream_of_reversal_is_revcomp)"],
+    "assumptions": ["strand-0 rows are excluded from the streaming law (known finding)"],
+    "explanation": "reversal and complement proved; streaming law by lemma over contracts; bounded bytes",
+}
+
 NOT_APPLICABLE = {}
